@@ -21,6 +21,15 @@ namespace Ioflo.LogRules
 theorem C22_single_log_refines (s : S1) (h : List Op) : s.toSys.exec h = (s.exec h).toSys :=
   toSys_exec s h
 
+/-- **logs of one logger do not interfere** (rules that do not drain a queue: never, once, always,
+update, change): in a logger with any number of such logs, every log ends up exactly as it would
+alone in its own logger, for every protocol-respecting history.  This carries the single-log
+theorems below over to the multi-log loggers that the correspondence check runs. -/
+theorem C22_logs_independent (s : Sys) (h : List Op) (ha : s.alive = true) (hs : s.status = .stopped)
+    (hall : ∀ l ∈ s.logs, Fresh (s.single l) ∧ nodrain l) (hp : proto .stopped h = true) :
+    (s.exec h).logs = s.logs.map (fun l => ((s.single l).exec h).log) :=
+  multi_exec s h ⟨ha, fun l hl => ⟨(hall l hl).1.inv, (hall l hl).2⟩⟩ (by rw [hs]; exact hp)
+
 /-! ## never, always, once -/
 
 /-- **never writes nothing**: whatever the state of the logger and whatever the history
@@ -70,6 +79,10 @@ example : ((exS .always).exec exH).recs =
   decide
 example : ((exS .once).exec exH).recs = [⟨some 0, [some (.atom (.int 0))]⟩] := by decide
 example : ((exS .never).exec exH).recs = [] := by decide
+
+/-- two logs (always, update) on the same share in one logger: each file is what the log writes alone -/
+example : ((({ world := { stamp := some 0 }, logs := [exLog .always, exLog .update] } : Sys).exec exH).logs.map (·.disk)) =
+    [((exS .always).exec exH).log.disk, ((exS .update).exec exH).log.disk] := by decide
 
 /-! ## update
 
